@@ -10,6 +10,7 @@ from ..prng import Rng, mix
 from ..seams import CLOCK, F, T, AMHLmod, reset_world
 from ..seams import LIB_ERRORS
 from ..core import real, RealCodeRaised
+from ..oracle import caching_flags_off
 from ..oracle import (L, ed_verify, sig_message, base_mult, point_add, pubkey_of_seed,
                       scalar_to_int, int_to_scalar, as_key_arg, LOCK_FORMS, LIMITS, in_form,
                       ARG_STYLES, styled_flags, styled_sigfields)
@@ -742,6 +743,10 @@ class Sim:
 
 def execute(plan, run):
     reset_world(plan['run_seed'])
+    if plan['idx'] % 7 == 3:
+        # every seventh run: some of the cache-this-value flags are switched off
+        if caching_flags_off(plan['run_seed']):
+            run.probe('caching_flags_off')
     sim = Sim(plan, run)
     events = sim.run_all()
     run.probe('n_%d' % sim.chains[0].n)
